@@ -168,7 +168,7 @@ def evaluate_cases(mod, cases, pool):
     return out
 
 
-def shrink(mod, case, fail, pool, budget_s=120):
+def shrink(mod, case, fail, pool, budget_s=120, known=()):
     """greedy delta debugging with the property's own candidate generator; keeps the same failing clause"""
     if not hasattr(mod, 'shrink_candidates') or os.environ.get('VERIF_NO_SHRINK') == '1':
         return case, fail
@@ -182,6 +182,10 @@ def shrink(mod, case, fail, pool, budget_s=120):
         res = evaluate_cases(mod, cands, pool)
         for c, f, _ in res:
             if f is not None and f.get('clause') == fail.get('clause'):
+                # a smaller case must stay outside every known-finding class, otherwise the violation would be
+                # mistaken for that finding
+                if hasattr(mod, 'match_known') and mod.match_known(c, f, known) is not None:
+                    continue
                 case, fail, improved = c, f, True
                 break
     return case, fail
@@ -317,7 +321,7 @@ def main():
                     continue
                 kf = None
                 if not fail.get('no_input'):
-                    case, fail = shrink(mod, case, fail, pool)
+                    case, fail = shrink(mod, case, fail, pool, known=known)
                     if hasattr(mod, 'match_known'):
                         kf = mod.match_known(case, fail, known)
                 if kf is not None:
